@@ -1358,7 +1358,7 @@ class Parser:
                         break
             self._expect(TokenType.RPAREN, "Expected ')' after parameters")
             body = self._parse_block_statement()
-            value = FunctionExpression(None, params, body)
+            value = FunctionExpression(None, params, body, is_method=True)
         elif self._match(TokenType.COLON):
             value = self._parse_assignment_expression()
         else:
